@@ -31,9 +31,24 @@ def _evaluate(text, frags, space, acc, sqlparse):
         acc.violation(e1.viol(bad[0], str(bad[1]), bad[2], text, frags, space))
 
 
+def trailing_comment_cases():
+    """full product: a nested group x a comment directly behind it x what follows x what stands in front (the passes
+    that move comments into the group in front re-parent tokens and must keep every ancestor consistent)"""
+    import itertools
+    groups = ['a=b', 'a+b', 'a b', 'f(x)', 'a.b', 'a::int', 'x[1]', 'case when a then b end', '(a)', 'a as b', 'a = f(b.c)',
+              "date '2020-01-01'", 'a, b', 'a=b+c', 'f(x) over (order by a)', 'a:=1', 'a in (1, 2)', 'a desc', 'begin a end']
+    trail = ['/*c*/', ' /*c*/', '--c\n', ' --c\n', '/*c*//*d*/', ' /*+h*/']
+    follow = ['', ';', ' x', ', y', ' from t', ')']
+    prefix = ['', 'select ', '(', 'select a, ', 'where ']
+    return [(p, g, t, f) for p, g, t, f in itertools.product(prefix, groups, trail, follow)]
+
+
 def run(tier, seed):
     sp = _e1parse.parse_spaces(tier, focus=() if tier == 'quick' else ('D1', 'D2'), light=True)
-    merged, sizes = e1.run(sp, _evaluate, seed, bits=27 if tier == 'thorough' else 23, setup=_setup)
+    from checks import c09
+    merged, sizes = e1.run(sp, _evaluate, seed, bits=27 if tier == 'thorough' else 23, setup=_setup,
+                           extra_cases=[('TRAILING-COMMENT product', trailing_comment_cases(), ''),
+                                        ('ATTACH product (C09)', c09.attach_cases(), '')])
     cov = {
         'evaluations': merged['n'], 'distinct_nontrivial': merged['distinct'],
         'rule': 'same string spaces as C02 (U, D1..D7, LEX; raw and blank-joined). Non-trivial = at '
